@@ -31,6 +31,12 @@ class _CommonVisitors(visitor.NodeVisitor):
     Contains the visitor methods that are equal between SQLAlchemy Core and ORM.
     """
 
+    def generic_visit(self, node: ast._Node):
+        ":meta private:"
+        # A node without an explicit visitor method cannot be translated.
+        # Refuse it, instead of silently dropping it from the result:
+        raise ex.UnsupportedNodeException(type(node).__name__)
+
     def visit_Null(self, node: ast.Null) -> Null:
         ":meta private:"
         return null()
